@@ -52,7 +52,7 @@ structure PI (p : Pool) (L : List Nat) (nA nF : Nat) : Prop where
   relDisj : ∀ b, b ∈ p.released → b ∉ p.parked ∧ b ∉ L
   freeNum : p.freeNum = p.parked.length
   keep : p.parked.length ≤ p.keep
-  balance : p.ctor + nF = p.dtor + L.length + p.leaked
+  balance : p.ctor + nF = p.dtor + L.length + p.leaked + p.thrown
   statBal : p.stat.allocT + nA = p.stat.freeT + L.length
   statPeakA : L.length ≤ p.stat.peakA + nA
   statPeakF : p.parked.length ≤ p.stat.peakF
@@ -460,8 +460,34 @@ theorem renew_pi (p : Pool) (k : Nat) (hi : PI p [] 0 0) : PI (p.renew k) [] 0 0
     · exact hi.fresh b (Or.inr (Or.inr hb))
   · have := hi.balance; simpa [Pool.renew] using this
 
+/-- the constructor of the object being built in the head block throws: the block leaves the set of
+blocks in use without being parked or released -/
+theorem PI_throw (q : Pool) (b : Nat) (L : List Nat) (nA nF : Nat) (hi : PI q (b :: L) (nA + 1) nF) :
+    PI { q with thrown := q.thrown + 1 } L nA nF := by
+  refine ⟨hi.parkedNodup, (List.nodup_cons.1 hi.liveNodup).2, ?_, ?_, ?_, hi.freeNum, hi.keep, ?_, ?_, ?_, hi.statPeakF⟩
+  · intro x hx hm; exact hi.disjoint x hx (List.mem_cons_of_mem _ hm)
+  · intro x hx
+    rcases hx with hx | hx | hx
+    · exact hi.fresh x (Or.inl hx)
+    · exact hi.fresh x (Or.inr (Or.inl (List.mem_cons_of_mem _ hx)))
+    · exact hi.fresh x (Or.inr (Or.inr hx))
+  · intro x hx
+    have := hi.relDisj x hx
+    exact ⟨this.1, fun hm => this.2 (List.mem_cons_of_mem _ hm)⟩
+  · have := hi.balance; simp only [List.length_cons] at this; simp only; omega
+  · have := hi.statBal; simp only [List.length_cons] at this; simp only; omega
+  · have := hi.statPeakA; simp only [List.length_cons] at this; simp only; omega
+
 theorem pool_step_inv (s : PoolSys) (op : PoolOp) (hi : SInv s) : SInv (s.step op) := by
   cases op with
+  | athrow h v =>
+      simp only [PoolSys.step]
+      split
+      · exact hi
+      · split
+        · have hA := (PI_allocA s.pool s.inUse (nAlloc s) (nFree s) hi.pi).1
+          exact ⟨PI_throw _ _ _ _ _ hA, hi.resv, hi.uniq⟩
+        · exact hi
   | evs l => exact runEvs_inv s l hi
   | renew k =>
       simp only [PoolSys.step]
